@@ -14,6 +14,16 @@ def run(ctx):
     tst = [r for r in ctx.go_results(o) if r.get("kind") == "stat"]
     if not tst:
         raise core.Infra("trace driver did not finish:\n" + o[-2000:])
+    # second pass: sparse partition counts, so the writable set shrinks/grows by more than one between calls
+    trace2 = trace + ".2"
+    rc, o2 = ctx.go_test("./c28/", run="TestTraces", env={"VERIF_OUT": trace2, "VERIF_DEPTH": 4 if ctx.tier == "quick" else 5, "VERIF_NSET": "1,2,6,12"})
+    tst2 = [r for r in ctx.go_results(o2) if r.get("kind") == "stat"]
+    if not tst2:
+        raise core.Infra("trace driver (sparse) did not finish:\n" + o2[-2000:])
+    with open(trace, "a") as f:
+        f.write(open(trace2).read())
+    os.remove(trace2)
+    tst[0]["events"] += tst2[0]["events"]; tst[0]["traces"] += tst2[0]["traces"]; tst[0]["panics"] += tst2[0]["panics"]
     r = ctx.tlc("PartSMTrace", "PartSMTrace.cfg", workers=1, timeout=1500, heap="8g", tag="trace", allow_fail=True)
     acc = re.search(r'<<"ACCEPTED", (\d+), "drift", (\d+)>>', r.out)
     rej = re.search(r'<<"REJECTED-AT", (\d+), (".*")>>', r.out)
@@ -29,8 +39,8 @@ def run(ctx):
     ctx.cov["distinct_nontrivial"] = stats[0]["nontrivial"]
     ctx.cov["traces_validated_against_impl"] = tst[0]["traces"]
     ctx.cov["rule"] = ("(a) keys: all byte strings of length 0..4 over byte classes {00,61,7f,80,ff} and alternating strings of length 5..13, x n in {1,2,3,7,8,100,65536}: murmur2 and Kafka placement computed by TLC (anchored on Kafka's golden vectors);"
-                       " Sarama/Kafka arithmetic on boundary hashes; (b) every sequence of %d operations over Partition(n<=%d)/OnNewBatch on sticky, sticky-key, round-robin, least-backup, uniform-bytes (+adaptive) recorded and validated against PartSM.tla."
-                       " non-trivial = keys longer than 3 bytes" % (depth, nmax))
+                       " Sarama/Kafka arithmetic on boundary hashes; (b) every sequence of %d operations over Partition(n<=%d)/OnNewBatch on sticky, sticky-key, round-robin, least-backup, uniform-bytes (+adaptive) and every sequence of %d operations over n in {1,2,6,12} (writable set shrinking by more than one) recorded and validated against PartSM.tla."
+                       " non-trivial = keys longer than 3 bytes" % (depth, nmax, 4 if ctx.tier == "quick" else 5))
     ctx.notes["oracle"] = stats
     ctx.notes["traces"] = tst
     ctx.notes["drift_steps_in_range_but_not_pinned"] = int(acc.group(2)) if acc else None
